@@ -128,6 +128,7 @@ use super::resource::Resource;
 use crate::io::Fd;
 use crate::job::Pid;
 use crate::job::ProcessState;
+use crate::path::Component;
 use crate::path::Path;
 use crate::path::PathBuf;
 use crate::semantics::ExitStatus;
@@ -908,7 +909,19 @@ impl Chdir for VirtualSystem {
         let inode = self.resolve_existing_file(AT_FDCWD, path, /* follow links */ true)?;
         if matches!(&inode.borrow().body, FileBody::Directory { .. }) {
             let mut process = self.current_process_mut();
-            let new_path = process.cwd.join(path);
+            // The working directory path must be an absolute pathname that
+            // contains no `.` or `..` components, as returned by the real
+            // `getcwd`.
+            let mut new_path = PathBuf::from("/");
+            for component in process.cwd.join(path).components() {
+                match component {
+                    Component::RootDir | Component::CurDir => {}
+                    Component::ParentDir => {
+                        new_path.pop();
+                    }
+                    Component::Normal(name) => new_path.push(name),
+                }
+            }
             process.chdir(new_path);
             Ok(())
         } else {
